@@ -900,7 +900,8 @@ def delete_unreachable_code(source: str) -> str:
             continue
 
         if isinstance(node, ast.While) and not test_value:
-            yield node, None, transaction
+            if not node.orelse:  # The else clause of a loop that never runs always runs
+                yield node, None, transaction
             continue
 
         if isinstance(node, ast.If):
@@ -1880,7 +1881,8 @@ def remove_dead_ifs(source: str) -> str:
         except ValueError:
             continue
 
-        if isinstance(node, ast.While) and not value:
+        if isinstance(node, ast.While) and not value and not node.orelse:
+            # The else clause of a loop that never runs always runs
             yield node, None
 
         if isinstance(node, ast.IfExp):
